@@ -2,7 +2,12 @@
 
 package expiration
 
-import "github.com/maypok86/otter/v2/internal/generated/node"
+import (
+	"reflect"
+	"unsafe"
+
+	"github.com/maypok86/otter/v2/internal/generated/node"
+)
 
 // WheelForVerif exposes the bucket roots to the in-package audit of the /verif harness (overlay only).
 func (v *Variable[K, V]) WheelForVerif() [][]node.Node[K, V] { return v.wheel }
@@ -10,5 +15,13 @@ func (v *Variable[K, V]) WheelForVerif() [][]node.Node[K, V] { return v.wheel }
 // TimeForVerif is the wheel's current time.
 func (v *Variable[K, V]) TimeForVerif() uint64 { return v.time }
 
-// DueForVerif is the root of the list of timers that were already due when they were scheduled (nil before fix of F23).
-func (v *Variable[K, V]) DueForVerif() node.Node[K, V] { return v.due }
+// DueForVerif is the root of the list of timers that were already due when they were scheduled (fix ef7bc38, F23).
+// Looked up by name, so that the harness still builds against a tree without that list (the checks then judge its behaviour
+// instead of failing to compile); nil if there is no such field.
+func (v *Variable[K, V]) DueForVerif() node.Node[K, V] {
+	f := reflect.ValueOf(v).Elem().FieldByName("due")
+	if !f.IsValid() {
+		return nil
+	}
+	return *(*node.Node[K, V])(unsafe.Pointer(f.UnsafeAddr()))
+}
